@@ -52,7 +52,7 @@ class MemoryDB(object):
     fail = idx in self.faults
     has = metric in self.files
     ev = dict(k='db', op=op, m=run.mid(metric), ok=0 if fail else 1, res=int(has), has=int(has),
-              pts=[[int(a), cachesys.dec(b)] for a, b in pts], idx=idx, now=int(run.now * 1024))
+              pts=[[run.tlog(a), cachesys.dec(b)] for a, b in pts], idx=idx, now=int(run.now * 1024))
     run.ev.append(ev)
     run.pending_cnt = True
     if fail:
@@ -95,6 +95,11 @@ class WriterRun(object):
     if name is None:
       return 0
     return int(name[1:])
+
+  # with cfg['frac'] the stored timestamps are ts0 + 0.25, ts0 + 0.5, ... (several per whole second); they are
+  # logged in quarter seconds so that they stay distinct integers
+  def tlog(self, x):
+    return int(round(x * 4)) if self.cfg.get('frac') else int(x)
 
   def snap_cnt(self, force=False):
     st = self.wm.instrumentation.stats
@@ -139,13 +144,13 @@ class WriterRun(object):
 
     def on_acquire(owner):
       if owner == 'W' and self.w_pop is not None:
-        self.w_snapshot = sorted((int(a), cachesys.dec(b)) for a, b in cache.get(self.w_pop, {}).items())
+        self.w_snapshot = sorted((self.tlog(a), cachesys.dec(b)) for a, b in cache.get(self.w_pop, {}).items())
 
     def on_release(owner):
       if owner == 'R' and self.r_pending is not None:
         m, ts, vid = self.r_pending
         if cache.get(m, {}).get(ts) == cachesys.enc(vid):
-          self.ev.append(dict(k='stored', m=self.mid(m), ts=ts, id=vid))
+          self.ev.append(dict(k='stored', m=self.mid(m), ts=self.tlog(ts), id=vid))
         self.r_pending = None
       elif owner == 'W' and self.w_pop is not None and self.w_snapshot is not None:
         self.ev.append(dict(k='drained', m=self.mid(self.w_pop), batch=[list(x) for x in self.w_snapshot]))
@@ -172,7 +177,7 @@ class WriterRun(object):
         self.ev.append(dict(k='drained', m=0, batch=[]))
       elif not self.w_logged:
         # the pop did not go through the lock: record what the writer received
-        self.ev.append(dict(k='drained', m=self.mid(r[0]), batch=[[int(a), cachesys.dec(b)] for a, b in r[1]]))
+        self.ev.append(dict(k='drained', m=self.mid(r[0]), batch=[[self.tlog(a), cachesys.dec(b)] for a, b in r[1]]))
       return r
     cache.drain_metric = drain_metric
     self.sched.on_point = self.on_point
@@ -196,7 +201,7 @@ class WriterRun(object):
     for op in self.r_ops:
       if op[0] == 'store':
         _, m, ts, vid = op
-        ts = self.ts0 + ts            # timestamps close to the (virtual) present
+        ts = self.ts0 + (0.25 * ts if self.cfg.get('frac') else ts)            # timestamps close to the (virtual) present
         self.r_pending = (m, ts, vid)
         try:
           self.cache.store(m, (ts, cachesys.enc(vid)))
@@ -230,7 +235,7 @@ class WriterRun(object):
         if t.exc is not None:
           raise Machinery('workload thread %s died: %r' % (t.name, t.exc))
       self.snap_cnt()
-      cached = [[self.mid(m), int(ts), cachesys.dec(v)] for m, d in self.cache.items() for ts, v in d.items()]
+      cached = [[self.mid(m), self.tlog(ts), cachesys.dec(v)] for m, d in self.cache.items() for ts, v in d.items()]
       self.ev.append(dict(k='end', cached=cached))
     finally:
       self.teardown()
@@ -260,6 +265,11 @@ class WriterModules(object):
       s.pop('MAX_UPDATES_PER_SECOND_ON_SHUTDOWN', None)
     else:
       s['MAX_UPDATES_PER_SECOND_ON_SHUTDOWN'] = on_shutdown
+    # a tag queue of one slot that nobody drains (the tag writer thread is gone once the reactor stops):
+    # registering a new series for tagging must never hold the writer up
+    s['ENABLE_TAGS'] = True
+    s['SKIP_TAGS_FOR_NONTAGGED'] = False
+    s['TAG_QUEUE_SIZE'] = 1
     import carbon.state
     carbon.state.database = None
     self.util = env.fresh('carbon.util') if self.configured is None else __import__('carbon.util').util
